@@ -285,44 +285,50 @@ Definition split_tbl := [split_rd; split_wr; split_inc].
 Lemma holds_head s t l m rest : holders s l = (t, m) :: rest -> holds s t l m.
 Proof. intros E. exists m. rewrite E. split; [now left | auto]. Qed.
 
+Lemma reach_step tbl c ct m0 s s' :
+  reachable tbl c ct m0 s -> step tbl c ct s s' -> reachable tbl c ct m0 s'.
+Proof. intros; eapply RS; eauto. Qed.
+
+Lemma greach_step tbl c ct m0 s s' :
+  greachable tbl c ct m0 s -> gstep tbl c ct s s' -> greachable tbl c ct m0 s'.
+Proof. intros; eapply GRS; eauto. Qed.
+
+(* side conditions of SBegin for a CAny row of a two/three-row table under lock 0 held exclusively *)
+Ltac begin_ok :=
+  split; [cbn; auto|]; split; [|split; [reflexivity | intros ? []]];
+  [intros ? ? [E|[]]; inversion E; subst; eapply holds_head; reflexivity].
+
 Theorem split_rows_admit_lost_update :
   drf_ok split_tbl = true /\
+  counter_loc split_tbl 0 = false /\   (* so rmw_not_lost is silent about this location *)
   exists s, reachable split_tbl 0%nat (fun _ => 0%nat) (fun _ => 0) s
-            /\ incs s 0 = 1              (* thread 2 completed an increment *)
-            /\ snap s 1%nat = 0          (* thread 1 had read 0 *)
-            /\ mem s 0 = snap s 1%nat + 1  (* ... and has stored what it read, plus one *)
-            /\ mem s 0 = 1               (* two updates, the value grew by one *)
+            /\ incs s 0 = 1              (* thread 2 completed an increment ... *)
+            /\ mem s 0 = 1               (* ... thread 1 stored (what it had read = 0) + 1: two updates, the value grew by one *)
             /\ (forall t, active s t = None) /\ (forall l, holders s l = []).
 Proof.
-  split; [reflexivity|].
-  eexists. split.
-  - eapply RS. eapply RS. eapply RS. eapply RS. eapply RS. eapply RS. eapply RS. eapply RS.
-    eapply RS. eapply RS. eapply RS. eapply RS. eapply RS. apply R0.
-    + apply SPublish; reflexivity.
-    + (* thread 1, first critical section: read *)
-      apply (SAcquire _ _ _ _ 1%nat 0 LW); [reflexivity | discriminate].
-    + apply (SBegin _ _ _ _ 1%nat split_rd); [reflexivity|].
-      split; [cbn; auto|]. split; [|split; [reflexivity | intros k []]].
-      intros l m [E|[]]. inversion E; subst. apply (holds_head _ _ _ _ []). reflexivity.
-    + apply (SEnd _ _ _ _ 1%nat split_rd 0). reflexivity.
-    + apply (SRelease _ _ _ _ 1%nat 0 LW); [cbn; auto | reflexivity].
-    + (* thread 2: a whole increment *)
-      apply (SAcquire _ _ _ _ 2%nat 0 LW); [reflexivity | discriminate].
-    + apply (SBegin _ _ _ _ 2%nat split_inc); [reflexivity|].
-      split; [cbn; auto|]. split; [|split; [reflexivity | intros k []]].
-      intros l m [E|[]]. inversion E; subst. apply (holds_head _ _ _ _ []). reflexivity.
-    + apply (SEnd _ _ _ _ 2%nat split_inc 0). reflexivity.
-    + apply (SRelease _ _ _ _ 2%nat 0 LW); [cbn; auto | reflexivity].
-    + (* thread 1, second critical section: write back snapshot + 1 *)
-      apply (SAcquire _ _ _ _ 1%nat 0 LW); [reflexivity | discriminate].
-    + apply (SBegin _ _ _ _ 1%nat split_wr); [reflexivity|].
-      split; [cbn; auto|]. split; [|split; [reflexivity | intros k []]].
-      intros l m [E|[]]. inversion E; subst. apply (holds_head _ _ _ _ []). reflexivity.
-    + apply (SEnd _ _ _ _ 1%nat split_wr 1). reflexivity.
-    + apply (SRelease _ _ _ _ 1%nat 0 LW); [cbn; auto | reflexivity].
-  - cbn. repeat split; try reflexivity.
-    + intros t. unfold upd. repeat (destruct (Nat.eqb _ _); try reflexivity).
-    + intros l. unfold updZ. repeat (destruct (Z.eqb _ _); try reflexivity).
+  split; [reflexivity|]. split; [reflexivity|].
+  assert (R : reachable split_tbl 0%nat (fun _ => 0%nat) (fun _ => 0) (init (fun _ => 0))) by apply R0.
+  unfold init in R.
+  eapply reach_step in R; [|apply SPublish; reflexivity]. cbn in R.
+  (* thread 1, first critical section: read *)
+  eapply reach_step in R; [|apply (SAcquire _ _ _ _ 1%nat 0 LW); [reflexivity | discriminate]]. cbn in R.
+  eapply reach_step in R; [|apply (SBegin _ _ _ _ 1%nat split_rd); [reflexivity | begin_ok]]. cbn in R.
+  eapply reach_step in R; [|apply (SEnd _ _ _ _ 1%nat split_rd 0); reflexivity]. cbn in R.
+  eapply reach_step in R; [|apply (SRelease _ _ _ _ 1%nat 0 LW); [cbn; auto | reflexivity]]. cbn in R.
+  (* thread 2: a whole increment *)
+  eapply reach_step in R; [|apply (SAcquire _ _ _ _ 2%nat 0 LW); [reflexivity | discriminate]]. cbn in R.
+  eapply reach_step in R; [|apply (SBegin _ _ _ _ 2%nat split_inc); [reflexivity | begin_ok]]. cbn in R.
+  eapply reach_step in R; [|apply (SEnd _ _ _ _ 2%nat split_inc 0); reflexivity]. cbn in R.
+  eapply reach_step in R; [|apply (SRelease _ _ _ _ 2%nat 0 LW); [cbn; auto | reflexivity]]. cbn in R.
+  (* thread 1, second critical section: write back snapshot + 1 *)
+  eapply reach_step in R; [|apply (SAcquire _ _ _ _ 1%nat 0 LW); [reflexivity | discriminate]]. cbn in R.
+  eapply reach_step in R; [|apply (SBegin _ _ _ _ 1%nat split_wr); [reflexivity | begin_ok]]. cbn in R.
+  eapply reach_step in R; [|apply (SEnd _ _ _ _ 1%nat split_wr 1); reflexivity]. cbn in R.
+  eapply reach_step in R; [|apply (SRelease _ _ _ _ 1%nat 0 LW); [cbn; auto | reflexivity]]. cbn in R.
+  eexists. split; [exact R|]. cbn.
+  split; [reflexivity|]. split; [reflexivity|]. split.
+  - intros t. unfold upd. repeat (destruct (Nat.eqb _ _); try reflexivity).
+  - intros l. unfold updZ. repeat (destruct (Z.eqb _ _); try reflexivity).
 Qed.
 
 (* the row the rule prints instead: one rmw that names no lock (mutex 0 is not held
@@ -333,24 +339,34 @@ Proof. reflexivity. Qed.
 
 (* and on the generalised machine the split access exists as ONE access: thread 1 is inside the
    rmw row, has dropped mutex 0, and thread 2 is inside a conflicting access at the same time *)
+Definition split_one := mkRow 0 1 KRmw [] CAny [] PTraffic [] String.EmptyString.
+
 Example gmachine_split_access_is_a_race :
-  let r := mkRow 0 1 KRmw [] CAny [] PTraffic [] String.EmptyString in
-  exists s, greachable [r; split_inc] 0%nat (fun _ => 0%nat) (fun _ => 0) s
-            /\ active s 1%nat = Some r /\ active s 2%nat = Some split_inc
-            /\ conflict r split_inc = true.
+  exists s, greachable [split_one; split_inc] 0%nat (fun _ => 0%nat) (fun _ => 0) s
+            /\ active s 1%nat = Some split_one /\ active s 2%nat = Some split_inc
+            /\ conflict split_one split_inc = true.
 Proof.
-  cbv zeta. eexists. split.
-  - eapply GRS. eapply GRS. eapply GRS. eapply GRS. eapply GRS. eapply GRS. apply GR0.
-    + apply GPublish; reflexivity.
-    + apply (GAcquire _ _ _ _ 1%nat 0 LW); [reflexivity | discriminate].
-    + apply (GBegin _ _ _ _ 1%nat (mkRow 0 1 KRmw [] CAny [] PTraffic [] String.EmptyString)); [reflexivity|].
-      split; [cbn; auto|]. split; [intros l m []|split; [reflexivity | intros k []]].
-    + (* released in the middle of the access *)
-      apply (GRelease _ _ _ _ 1%nat 0 LW); [cbn; auto|].
-      intros r Ha m Hin. cbn in Ha. inversion Ha; subst. destruct Hin.
-    + apply (GAcquire _ _ _ _ 2%nat 0 LW); [reflexivity | discriminate].
-    + apply (GBegin _ _ _ _ 2%nat split_inc); [reflexivity|].
-      split; [cbn; auto|]. split; [|split; [reflexivity | intros k []]].
-      intros l m [E|[]]. inversion E; subst. apply (holds_head _ _ _ _ []). reflexivity.
-  - repeat split; reflexivity.
+  assert (R : greachable [split_one; split_inc] 0%nat (fun _ => 0%nat) (fun _ => 0) (init (fun _ => 0))) by apply GR0.
+  unfold init in R.
+  eapply greach_step in R; [|apply GPublish; reflexivity]. cbn in R.
+  eapply greach_step in R; [|apply (GAcquire _ _ _ _ 1%nat 0 LW); [reflexivity | discriminate]]. cbn in R.
+  eapply greach_step in R; [|apply (GBegin _ _ _ _ 1%nat split_one); [reflexivity|];
+    split; [cbn; auto|]; split; [intros ? ? []|split; [reflexivity | intros ? []]]]. cbn in R.
+  (* released in the middle of the access *)
+  eapply greach_step in R; [|apply (GRelease _ _ _ _ 1%nat 0 LW); [cbn; auto|];
+    intros r Ha m Hin; cbn in Ha; inversion Ha; subst; destruct Hin]. cbn in R.
+  eapply greach_step in R; [|apply (GAcquire _ _ _ _ 2%nat 0 LW); [reflexivity | discriminate]]. cbn in R.
+  eapply greach_step in R; [|apply (GBegin _ _ _ _ 2%nat split_inc); [reflexivity | begin_ok]]. cbn in R.
+  eexists. split; [exact R|]. repeat split; reflexivity.
 Qed.
+
+(* the same for two atomic operations: an atomic load row and an atomic store row never conflict
+   (both atomic), so the table printed before the rule is accepted, the location is not a
+   counter location, and nothing is claimed; the rule prints the pair as one NON-atomic rmw row,
+   which is rejected *)
+Example atomic_load_store_rows_accepted_but_not_counter :
+  let ld := mkRow 0 1 KARead [] CAny [] PTraffic [] String.EmptyString in
+  let st := mkRow 0 1 KAWrite [] CAny [] PTraffic [] String.EmptyString in
+  drf_ok [ld; st] = true /\ counter_loc [ld; st] 0 = false
+  /\ drf_ok [ld; st; split_one] = false.
+Proof. repeat split; reflexivity. Qed.
